@@ -307,6 +307,8 @@ def drive_runner(ctx, kw_list, case, sched):
         kwargs["warn"] = opts["warn"]
     if kw_list is not None:
         kwargs["watchers"] = kw_list
+    elif case.get("kw_none"):
+        kwargs["watchers"] = None       # explicit None = not given (run, and sudo since 2644606)
     if sudo and "kw_password" in sudo:
         kwargs["password"] = sudo["kw_password"]
     exc = None
@@ -514,6 +516,7 @@ class C12(Prop):
         kw_ws = self._watchers(rng, 1) if 0.2 < k < 0.55 else None
         calls = [sched()] + ([sched()] if rng.random() < 0.4 else [])
         return {"how": "sudo", "cfg_watchers": cfg_ws, "watchers": kw_ws, "sudo": su,
+                "kw_none": kw_ws is None and rng.random() < 0.4,
                 "opts": self._opts(rng), "calls": calls}
 
     def gen_long(self, rng):
@@ -548,6 +551,7 @@ class C12(Prop):
         if rng.random() < 0.04:
             kw_ws = []
         return {"how": how, "cfg_watchers": cfg_ws, "watchers": kw_ws, "sudo": None,
+                "kw_none": kw_ws is None and rng.random() < 0.3,
                 "opts": self._opts(rng), "calls": calls}
 
     def generate(self, rng, tier, n):
